@@ -75,6 +75,7 @@ class Shared:
         self.z3_unknown = 0
         self.faulting = False
         self.havoc_unmodelled = False
+        self.field_hook = None
         self.cvc5_decided = 0
         self.max_paths = max_paths
         self.trusted = set()
@@ -129,6 +130,7 @@ class Ctx:
         self.atoms = []
         self.any_ops = []
         self.fault_at = None
+        self.ghost = {}
         self.depth = 0
         self.notes = []
 
@@ -700,6 +702,8 @@ class Interp:
         return None, None
 
     def obj_getattr(self, obj, name, use_getattr_hook=True):
+        if self.ctx.shared.field_hook is not None:
+            self.ctx.shared.field_hook(self, obj, name, 'read')
         if name == '__dict__':
             return obj.d
         if name == '__class__':
@@ -721,6 +725,8 @@ class Interp:
         self.raise_(AttributeError, f"'{obj.cls.__name__}' object has no attribute '{name}'")
 
     def setattr_(self, obj, name, val):
+        if isinstance(obj, PObj) and self.ctx.shared.field_hook is not None:
+            self.ctx.shared.field_hook(self, obj, name, 'write')
         if isinstance(obj, PObj):
             raw, owner = self.class_lookup(obj.cls, name)
             if isinstance(raw, property):
